@@ -496,7 +496,9 @@ class VFG(object):
             if count > limit:
                 raise AnalysisError("value-flow walk exceeded %d states" % limit)
             w.nodes.add(node)
-            if stop is not None and stop(node):
+            if not stack:
+                w.plain.add(node)
+            if stop is not None and not stack and stop(node):
                 w.boundary.add(node)
                 continue
             expanded = False
@@ -543,6 +545,7 @@ class Walk(object):
         self.leaves = set()
         self.leaf_states = set()
         self.boundary = set()
+        self.plain = set()     # nodes visited with an empty projection stack (the value itself, not a part of it)
 
     def path(self, node):
         """Hop chain (strings) from a start to node (first matching state)."""
